@@ -219,7 +219,7 @@ def gen_cases(ctx):
     except OSError:
         pass
     weights = [w for _, w in ALPHABETS]
-    for _ in range(ctx.scale(100000, 700000)):
+    for _ in range(ctx.scale(100000, 1000000)):
         names = rng.choices([a for a, _ in ALPHABETS], weights)[0]
         g = random_seq(rng, names, rng.randint(1, 14))
         if rng.random() < 0.7:
